@@ -99,7 +99,7 @@ func driveWire(c *ctx) {
 	rng := rand.New(rand.NewSource(c.seed))
 	half := new(big.Int).Rsh(add(bigN, -1), 1)
 
-	derParse := func(b []byte, random bool) {
+	derParse := func(b []byte, random bool, cls ...string) {
 		var (
 			ok      bool
 			rh, sh  string
@@ -113,6 +113,10 @@ func driveWire(c *ctx) {
 				rebuilt = hx(secec.BuildASN1Signature(r, s))
 			}
 		})
+		if len(cls) > 0 {
+			c.E("der.Parse", "in", hx(b), "ok", ok, "r", rh, "s", sh, "rebuilt", rebuilt, "panic", pn, "random", random, "cls", cls[0])
+			return
+		}
 		c.E("der.Parse", "in", hx(b), "ok", ok, "r", rh, "s", sh, "rebuilt", rebuilt, "panic", pn, "random", random)
 	}
 	bip := func(b []byte) {
@@ -148,13 +152,25 @@ func driveWire(c *ctx) {
 			ok       bool
 			unc, reb string
 		)
+		var unc2, reb2, pt2 string
 		pn := catch(func() {
-			k, err := secec.ParseASN1PublicKey(append([]byte{}, b...))
+			in := append([]byte{}, b...)
+			k, err := secec.ParseASN1PublicKey(in)
 			if err == nil {
 				ok, unc, reb = true, hx(k.Bytes()), hx(k.ASN1Bytes())
+				// the caller reuses its input buffer (and scribbles over what it was handed): the key object must not move
+				for i := range in {
+					in[i] ^= 0xA5
+				}
+				for _, sl := range [][]byte{k.Bytes(), k.ASN1Bytes(), k.CompressedBytes()} {
+					for i := range sl {
+						sl[i] = 0x5A
+					}
+				}
+				unc2, reb2, pt2 = hx(k.Bytes()), hx(k.ASN1Bytes()), hx(k.Point().UncompressedBytes())
 			}
 		})
-		c.E("spki.Parse", "in", hx(b), "ok", ok, "unc", unc, "rebuilt", reb, "panic", pn, "cls", cls)
+		c.E("spki.Parse", "in", hx(b), "ok", ok, "unc", unc, "rebuilt", reb, "panic", pn, "cls", cls, "unc2", unc2, "reb2", reb2, "pt2", pt2)
 	}
 
 	// ---- values
@@ -265,6 +281,19 @@ func driveWire(c *ctx) {
 			if k == 0 {
 				bip(b)
 			}
+		}
+	}
+	// ---- pipeline C: the shape model's own enumeration (Shape_Wire.tla: base, every single and every pair of deviations)
+	sigShapes, spkiShapes := loadWireShapes(os.Getenv("VERIF_SKEL_DIR"))
+	lfOf := map[string]lenForm{"short": lenShort, "long81": lenLong81, "long82": lenLong82, "indef": lenIndefinite, "plus1": lenPlus1, "minus1": lenMinus1}
+	ifOf := map[string]intForm{"min": intMinimal, "extra0": intExtraZero, "two0": intTwoZeros, "neg": intNegative, "empty": intEmpty, "pad": intPad33}
+	for si, m := range sigShapes {
+		sh := shape{byte(m.SeqTag), byte(m.RTag), byte(m.STag), lfOf[m.SeqLen], lfOf[m.RLen], lfOf[m.SLen], ifOf[m.RForm], ifOf[m.SForm], m.TrailIn, m.TrailOut, m.MissingS}
+		for k := 0; k < 3; k++ {
+			r, s := vals[(si+k+int(c.seed))%len(vals)], vals[(si*7+k*3+1)%len(vals)]
+			b := build(sh, r, s)
+			derParse(b, false, "model_sig_shape")
+			bip(append(append([]byte{}, b...), 0x01))
 		}
 	}
 	// ---- BIP-66: every total length 7..76, every (lenR, lenS) split, minimal integers with chosen lead bytes
@@ -460,6 +489,75 @@ func driveWire(c *ctx) {
 			}
 		}
 	}
+	// ---- pipeline C: SubjectPublicKeyInfo shapes from the model
+	{
+		oidK1pad := []byte{0x06, 0x06, 0x2b, 0x81, 0x04, 0x80, 0x00, 0x0a}
+		oidR1 := []byte{0x06, 0x08, 0x2a, 0x86, 0x48, 0xce, 0x3d, 0x03, 0x01, 0x07}
+		cat := func(bs ...[]byte) []byte {
+			var o []byte
+			for _, b := range bs {
+				o = append(o, b...)
+			}
+			return o
+		}
+		algs := map[string][]byte{
+			"ok":         algOK,
+			"swapped":    tlv(0x30, cat(oidK1, oidEC), lenShort),
+			"wrongcurve": tlv(0x30, cat(oidEC, oidR1), lenShort),
+			"nonminimal": tlv(0x30, cat(oidEC, oidK1pad), lenShort),
+			"dup":        tlv(0x30, cat(oidEC, oidEC), lenShort),
+			"missing":    tlv(0x30, cat(oidEC), lenShort),
+			"settag":     tlv(0x31, cat(oidEC, oidK1), lenShort),
+			"long81":     tlv(0x30, cat(oidEC, oidK1), lenLong81),
+			"params":     tlv(0x30, cat(oidEC, oidK1, []byte{0x05, 0x00}), lenShort),
+		}
+		for si, m := range spkiShapes {
+			d := add(randBig(rng, add(bigN, -1)), 1)
+			pub := privFrom(d).PublicKey()
+			unc, cm := pub.Bytes(), pub.CompressedBytes()
+			var content []byte
+			switch m.Content {
+			case "unc":
+				content = unc
+			case "cmp":
+				content = cm
+			case "badpoint":
+				content = append([]byte{}, unc...)
+				content[64] ^= 1
+			case "hybrid":
+				content = append([]byte{}, unc...)
+				content[0] = 6 + unc[64]&1
+			case "short":
+				content = unc[:64]
+			case "identity":
+				content = []byte{0}
+			case "noncanon":
+				xpv := new(big.Int).Add(new(big.Int).SetBytes(cm[1:]), bigP)
+				xpv.Mod(xpv, big2_256)
+				content = append([]byte{cm[0]}, be32(xpv)[:]...)
+			}
+			k := byte(m.Unused)
+			if k >= 1 && k <= 7 {
+				switch m.Pad {
+				case "shift":
+					content = shiftLeft(content, uint(k))
+					if content[0] == 0 && si%2 == 0 {
+						content = content[1:]
+					}
+				case "zero":
+					content = append([]byte{}, content...)
+					content[len(content)-1] &^= byte(1<<k) - 1
+				}
+			}
+			one := func(n int) []byte {
+				if n == 0 {
+					return nil
+				}
+				return []byte{0}
+			}
+			spki(mkSpki(algs[m.Alg], k, content, one(m.TrailIn), one(m.TrailBits), one(m.TrailOut), lfOf[m.BitsLen]), "model_spki_shape")
+		}
+	}
 	// Wycheproof public keys (the ECDH files carry malformed SPKI)
 	for _, fn := range []string{"ecdh_secp256k1_test.json"} {
 		raw, err := os.ReadFile(filepath.Join(c.repo, "secec", "testdata", "wycheproof", fn))
@@ -484,4 +582,64 @@ func driveWire(c *ctx) {
 			}
 		}
 	}
+}
+
+type wireSigShape struct {
+	SeqTag   int    `json:"seqTag"`
+	SeqLen   string `json:"seqLen"`
+	RTag     int    `json:"rTag"`
+	RLen     string `json:"rLen"`
+	RForm    string `json:"rForm"`
+	STag     int    `json:"sTag"`
+	SLen     string `json:"sLen"`
+	SForm    string `json:"sForm"`
+	TrailIn  int    `json:"trailIn"`
+	TrailOut int    `json:"trailOut"`
+	MissingS bool   `json:"missingS"`
+}
+
+type wireSpkiShape struct {
+	Unused    int    `json:"unused"`
+	Pad       string `json:"pad"`
+	Alg       string `json:"alg"`
+	TrailIn   int    `json:"trailIn"`
+	TrailBits int    `json:"trailBits"`
+	TrailOut  int    `json:"trailOut"`
+	BitsLen   string `json:"bitsLen"`
+	Content   string `json:"content"`
+}
+
+// loadWireShapes reads the skeletons written by Shape_Wire.tla (anywhere below root).
+func loadWireShapes(root string) (sig []wireSigShape, spki []wireSpkiShape) {
+	if root == "" {
+		return
+	}
+	filepath.Walk(root, func(p string, info os.FileInfo, err error) error {
+		if err != nil || info.IsDir() {
+			return nil
+		}
+		raw, rerr := os.ReadFile(p)
+		if rerr != nil {
+			return nil
+		}
+		for _, ln := range bytes.Split(raw, []byte{'\n'}) {
+			if len(bytes.TrimSpace(ln)) == 0 {
+				continue
+			}
+			switch filepath.Base(p) {
+			case "sig-shapes.ndjson":
+				var m wireSigShape
+				if json.Unmarshal(ln, &m) == nil {
+					sig = append(sig, m)
+				}
+			case "spki-shapes.ndjson":
+				var m wireSpkiShape
+				if json.Unmarshal(ln, &m) == nil {
+					spki = append(spki, m)
+				}
+			}
+		}
+		return nil
+	})
+	return
 }
